@@ -351,6 +351,11 @@ func (e *Evaluator) evalAssignment(assignment *parser.AssignmentStmt) error {
 	}
 	switch n := assignment.Target.(type) {
 	case *parser.Var:
+		if _, ok := e.scope.get(n.Name); !ok && n.Name != "_" {
+			// e.g. a function assigning to a global that is declared
+			// further down and has not been reached yet.
+			return newErr(assignment, fmt.Errorf("%w: %s", ErrVarNotSet, n.Name))
+		}
 		e.scope.update(n.Name, val)
 		return nil
 	case *parser.IndexExpression:
